@@ -353,3 +353,6 @@ def run(run, tier):
 
 def degrees_of(tier):
     return range(1, 9) if tier == 'thorough' else (2, 3, 5)
+
+
+from . import c07x; run, replay = c07x.attach(run, replay, CASES, report)    # SIR hierarchy / pref-mix theorems (Props/C07x.v) join this check
